@@ -37,10 +37,12 @@ def check(ctx, src):
     s_eac = ret_sites(lambda v: isinstance(v, ast.Call) and norm(v.func) == "compiler._compile_branch" and len(v.args) == 1 and isinstance(v.args[0], ast.Name) and v.args[0].id == "body")
     s_ewc = ret_sites(lambda v: isinstance(v, ast.Call) and dotted(v.func) == "Result" and not v.args and not v.keywords)
     all_rets = [r for r in pyq.walk_no_nested(f) if isinstance(r, ast.Return)]
-    res = [boolfn.equivalent(s_mac, f, AT, lambda e: e["M"], feasible=feas), boolfn.equivalent(s_eac, f, AT, lambda e: e["E"], feasible=feas),
-           boolfn.equivalent(s_ewc, f, AT, lambda e: not e["M"] and not e["E"], feasible=feas)]
+    res = [boolfn.equivalent(s_mac, f, AT, lambda e: e["M"], feasible=feas, free_unknown=True), boolfn.equivalent(s_eac, f, AT, lambda e: e["E"], feasible=feas, free_unknown=True),
+           boolfn.equivalent(s_ewc, f, AT, lambda e: not e["M"] and not e["E"], feasible=feas, free_unknown=True)]
     verdict = None if any(r[0] is None for r in res) or len(all_rets) != len(s_mac) + len(s_eac) + len(s_ewc) else all(r[0] for r in res)
-    ctx.decide("STAGE-ROOT", f"{R}|{FN}|per-root result", verdict, f"do-mac must compile the promoted compile-time value, eval-and-compile the body (once), eval-when-compile nothing (counterexamples: {[r[1] for r in res if r[1]]})",
+    if any(r[0] is False for r in res) and s_mac and s_eac:
+        verdict = False
+    ctx.decide_tt("STAGE-ROOT", f"{R}|{FN}|per-root result", verdict, f"do-mac must compile the promoted compile-time value, eval-and-compile the body (once), eval-when-compile nothing (counterexamples: {[r[1] for r in res if r[1]]})",
                R, f.lineno, witness="(do-mac 0) compiles to None instead of 0 / eval-when-compile emits run-time code / eval-and-compile emits nothing", detail="do-mac: value; eval-and-compile: body; else: empty")
     reg = comp.macro("do-mac")
     ctx.check(reg is not None and sorted(reg["names"]) == ["do-mac", "eval-and-compile", "eval-when-compile"] and norm(reg["pattern"]) == "[many(FORM)]", "STAGE-ROOT", f"{R}|{FN}|registration", "the three staging forms are registered with [many(FORM)]", R, f.lineno, detail="3 names")
